@@ -121,8 +121,8 @@ def c17(prop, tier, seed, known):
             if sig in seen_first_diff:
                 continue
             seen_first_diff.add(sig)
-            os.makedirs(os.path.join(VERIF, "replays"), exist_ok=True)
-            path = os.path.join(VERIF, "replays", "C17-%s-%s.replay" % (universe, sd))
+            os.makedirs(os.path.join(D.OUT, "replays"), exist_ok=True)
+            path = os.path.join(D.OUT, "replays", "C17-%s-%s.replay" % (universe, sd))
             msg = "builds %s and %s disagree at step %d: [%s] vs [%s]" % (
                 base, fl, first, ta[first] if first < len(ta) else "", tb[first] if first < len(tb) else "")
             with open(path, "w") as f:
@@ -202,9 +202,9 @@ def _aux_build_run(name, std, cxx="g++", extra=("-O1", "-fsanitize=address", "-D
 
 
 def _write_aux_replay(prop, name, std, cxx, oracle, line, detail):
-    os.makedirs(os.path.join(VERIF, "replays"), exist_ok=True)
+    os.makedirs(os.path.join(D.OUT, "replays"), exist_ok=True)
     tag = hashlib.sha256(line.encode()).hexdigest()[:10]
-    path = os.path.join(VERIF, "replays", "%s-%s-%s.replay" % (prop, name, tag))
+    path = os.path.join(D.OUT, "replays", "%s-%s-%s.replay" % (prop, name, tag))
     with open(path, "w") as f:
         f.write("svsim-replay 1\nproperty %s\nflavour special:aux\nprogram %s\nstd %s\ncompiler %s\n"
                 "expect %s\nline %s\n" % (prop, name, std, cxx, oracle, line))
@@ -347,8 +347,8 @@ def c13(prop, tier, seed, known):
             xa, xb = _twin_traces(binary, tc, nm, world, keep)
             msg = "twin traces differ: %s: [%s] vs %s: [%s]" % (tc, " | ".join(l for l in xa if l.startswith("T "))[-300:],
                                                               nm, " | ".join(l for l in xb if l.startswith("T "))[-300:])
-            os.makedirs(os.path.join(VERIF, "replays"), exist_ok=True)
-            path = os.path.join(VERIF, "replays", "C13-twin-%s-%s.replay" % (tc, s))
+            os.makedirs(os.path.join(D.OUT, "replays"), exist_ok=True)
+            path = os.path.join(D.OUT, "replays", "C13-twin-%s-%s.replay" % (tc, s))
             with open(path, "w") as f:
                 f.write("svsim-replay 1\nproperty C13\nuniverse %s\nflavour special:twin\ntwin %s %s\n"
                         "expect twin.trace\nnote %s\n%s\n" % (tc, tc, nm, msg.replace("\n", " "), world))
@@ -472,8 +472,8 @@ def c08(prop, tier, seed, known):
         if not r["compiled"]:
             diag = _cx_diag_summary(r["diag"])
             if "constant expression" in r["diag"] or "constexpr" in r["diag"]:
-                os.makedirs(os.path.join(VERIF, "replays"), exist_ok=True)
-                rp = os.path.join(VERIF, "replays", "C08-batch%04d-%s.replay" % (b, c.replace("+", "x")))
+                os.makedirs(os.path.join(D.OUT, "replays"), exist_ok=True)
+                rp = os.path.join(D.OUT, "replays", "C08-batch%04d-%s.replay" % (b, c.replace("+", "x")))
                 with open(rp, "w") as f:
                     f.write("svsim-replay 1\nproperty C08\nflavour special:cx\ncompiler %s\nseed %d\nbatch %d\n"
                             "per %d\nnops %d\nexpect cx.not_constant\n" % (c, seed, b, per, nops))
@@ -485,9 +485,9 @@ def c08(prop, tier, seed, known):
             continue
         for line in r["out"].splitlines():
             if line.startswith("CXMISMATCH"):
-                os.makedirs(os.path.join(VERIF, "replays"), exist_ok=True)
+                os.makedirs(os.path.join(D.OUT, "replays"), exist_ok=True)
                 tok = dict(t.split("=", 1) for t in line.split()[1:4])
-                rp = os.path.join(VERIF, "replays", "C08-batch%04d-h%s-%s.replay" % (b, tok.get("hist"), c.replace("+", "x")))
+                rp = os.path.join(D.OUT, "replays", "C08-batch%04d-h%s-%s.replay" % (b, tok.get("hist"), c.replace("+", "x")))
                 h = metas[b][int(tok.get("hist", 0))]
                 with open(rp, "w") as f:
                     f.write("svsim-replay 1\nproperty C08\nflavour special:cx\ncompiler %s\nseed %d\nbatch %d\n"
